@@ -17,7 +17,7 @@ DESIGN_REF = 'DESIGN.md section 5 / C19'
 TECHNIQUE = ('exhaustive enumeration of small public datasets (all multisets of <= 3 records) x measurement alphabets and of two-call histories on the real '
              'PublicInference; weights/frame validity and harness-recomputed loss against the uniformly weighted public data')
 RULE = ('case = (public multiset, private data, structure, query kind, sigma, total mode, history); public datasets: ALL non-empty multisets of <= 3 records '
-        'over the 6 cells of (A:2,B:3) (83), incl. ones disjoint from the private support; structures {A}, {AB}, {A,B}, {AB,B}; kinds identity/prefix; '
+        'over the 6 cells of (A:2,B:3) (83), incl. ones disjoint from the private support; structures {A}, {AB}, {A,B}, {AB,B}, {AB,BA}, {BA} and two with exactly repeated cliques (later repeats 40x noisier); kinds identity/prefix; '
         'sigma {0.5,2}; totals {1, N, None}, given totals spelled as float/int/numpy scalar types (rotated); histories: second estimate call on the same object (same list object refilled) with two (quick) / three (thorough: prefix kind, sigma 2, totals N/None) other structures (validity clauses). '
         'states = (object, history) nodes, transitions = estimate calls; non-trivial = >= 2 public records; distinct = digest of the case.')
 LEVEL_TEXT = ('Every public dataset of the small scope is reweighted against every measurement configuration of the alphabet; the returned weights must be '
@@ -31,6 +31,8 @@ ASSUMPTIONS = ['total=None reference: dense pseudo-inverse minimum-variance esti
 ATTRS = ['A', 'B']
 SIZES = [2, 3]
 STRUCTS = {'A': [('A',)], 'AB': [('A', 'B')], 'A-B': [('A',), ('B',)], 'AB-B': [('A', 'B'), ('B',)], 'AB-BA': [('A', 'B'), ('B', 'A')], 'BA': [('B', 'A')]}
+# exactly the same clique measured several times (precise first, then much noisier)
+STRUCTS_DUP = {'AB-AB': [('A', 'B'), ('A', 'B')], 'B-A-B-B': [('B',), ('A',), ('B',), ('B',)]}
 PRIVATE = {
     'p1': [(0, 0)] * 5 + [(1, 2)] * 3 + [(0, 1)] * 2,
     'p2': [(1, 0), (1, 1), (1, 2), (0, 2)],
@@ -71,13 +73,16 @@ def build_measurements(struct, kind, sigma, priv, seed):
     for r in PRIVATE[priv]:
         table[r] += 1
     ms, dense = [], []
-    for cl in STRUCTS[struct]:
+    seen = []
+    for cl in (STRUCTS.get(struct) or STRUCTS_DUP[struct]):
         x = O.marginal(table, ATTRS, cl).flatten()
         n = x.size
         Q = np.eye(n) if kind == 'identity' else np.tril(np.ones((n, n)))
-        y = Q @ x + sigma * rng.randn(n)
-        ms.append((Q.copy(), y.copy(), sigma, tuple(cl)))
-        dense.append((Q, y, sigma, tuple(cl)))
+        s_ = sigma * 40.0 if cl in seen else sigma     # a repeated clique: the later measurements are much noisier than the first
+        seen.append(cl)
+        y = Q @ x + s_ * rng.randn(n)
+        ms.append((Q.copy(), y.copy(), s_, tuple(cl)))
+        dense.append((Q, y, s_, tuple(cl)))
     return ms, dense
 
 
@@ -147,13 +152,14 @@ def run_public(acc, pi, tier, seed, only=None):
     ex = EXTREME if tier == 'thorough' else [EXTREME[pi % 3]]
     combos += [(priv, struct, 'identity' if list(STRUCTS).index(struct) % 2 == 0 else 'prefix', sigma) for (priv, sigma) in ex
                for struct in (STRUCTS if tier == 'thorough' else [list(STRUCTS)[pi % 6], list(STRUCTS)[(pi + 1) % 6]])]
+    combos += [(['p1', 'p2', 'p3'][pi % 3], sd, ['identity', 'prefix'][(pi + j_) % 2], 0.5) for j_, sd in enumerate(STRUCTS_DUP)]
     for priv, struct, kind, sigma in combos:
         N = float(len(PRIVATE[priv]))
         if True:
             if only is not None and (only['priv'], only['struct'], only['kind'], only['sigma']) != (priv, struct, kind, sigma):
                 continue
             ms, dense = build_measurements(struct, kind, sigma, priv, seed)
-            k_ = list(STRUCTS).index(struct) + (0 if kind == 'identity' else 1) + pi
+            k_ = (list(STRUCTS).index(struct) if struct in STRUCTS else 6) + (0 if kind == 'identity' else 1) + pi
             for tmode in (['1', 'N', 'None'] if tier == 'thorough' else [['1', 'N', 'None'][k_ % 3]]):
                 if only is not None and only['total'] != tmode:
                     continue
@@ -182,9 +188,9 @@ def run_public(acc, pi, tier, seed, only=None):
                 for kd, msg in fails:
                     acc.violate(case, {'kind': kd, 'call': 1}, 'public %r, %s/%s/sigma=%g/total=%s: %s' % (pub, struct, kind, sigma, tmode, msg))
                 # history: a second call on the same object with every other structure (validity clauses only)
-                hist_here = (struct == list(STRUCTS)[pi % 6] and kind == 'prefix') if tier == 'quick' else (kind == 'prefix' and sigma == 2.0 and tmode != '1' and priv == ['p1', 'p2', 'p3'][pi % 3])
+                hist_here = (struct == list(STRUCTS)[pi % 6] and kind == 'prefix') if tier == 'quick' else (kind == 'prefix' and sigma == 2.0 and tmode != '1' and priv == ['p1', 'p2', 'p3'][pi % 3] and struct in STRUCTS)
                 if hist_here or (only is not None and only.get('second')):
-                    si_ = list(STRUCTS).index(struct)
+                    si_ = list(STRUCTS).index(struct) if struct in STRUCTS else 0
                     names_ = list(STRUCTS)
                     if only is not None:
                         menu2 = names_
